@@ -72,7 +72,7 @@ def check_fault(ctx, mname, method, direction, site, k, ref, kind="raise", event
         ev_n[0] += 1
         if site == "event" and i == k:
             raise Boom("event fault at evaluation %d" % i)
-        return y[0] + 5.0      # never crosses
+        return y[0] - 0.8      # crosses during the run (non-terminal)
     exc = None
     try:
         ode.integrate(callback=[cb], events=[ev] if site == "event" else None)
@@ -112,8 +112,17 @@ def check_fault(ctx, mname, method, direction, site, k, ref, kind="raise", event
     # resume
     rhs.fault_at = None
     try:
-        ode.integrate()
+        if site == "event":
+            ode.integrate(events=[ev])
+        else:
+            ode.integrate()
         res = snapshot(ode)
+        if site == "event":
+            got = sorted(float(e.t) for e in ode.events)
+            want = ref["event_times"]
+            ok_ev = len(got) == len(want) and all(abs(a - b) <= 1e-6 for a, b in zip(got, want))
+            ctx.oracle("events-after-resume", ok_ev, dict(inp, events=got, fault_free_events=want), key="event-fault-leaves-dense-piece" if len(got) >= len(want) else "event-lost-after-event-fault",
+                       what="after an event-function fault and resuming, events at %s; the fault-free run reports %s" % (got, want))
         exact_end = ref["sol"](ref["t"][-1])
         err_ref = float(np.max(np.abs(ref["y"][-1] - exact_end)))
         err_res = float(np.max(np.abs(res["y"][-1] - exact_end)))
@@ -157,6 +166,9 @@ def reference(method, direction):
     ref = snapshot(ode)
     ref["nfev_run"] = rhs.n - n0
     ref["steps"] = steps[0]
+    ode_ev = build(method, direction, CountingRHS(base_f))
+    ode_ev.integrate(events=[lambda t, y: y[0] - 0.8])
+    ref["event_times"] = sorted(float(e.t) for e in ode_ev.events)
     # a fine reference for the dense-output comparison
     from scipy.integrate import solve_ivp
     r = solve_ivp(base_f, (ref["t"][0], ref["t"][-1]), ref["y"][0], method="DOP853", rtol=1e-12, atol=1e-13, dense_output=True)
@@ -202,6 +214,40 @@ def run(ctx):
             check_fault(ctx, mname, method, direction, "rhs", min(7, nf - 1), ref, kind="interrupt")
             ctx.count("family:" + mname)
             ctx.sample(dict(method=mname, direction=direction, rhs_evaluations=nf, steps=ref["steps"], fault_positions=ks[:8]), limit=4)
+    # tolerances that cannot be met: a right-hand side that leaves its domain (NaN) under an adaptive explicit method must
+    # end in the library's failure error, never in NaN rows recorded as a success
+    for mname, method in [("RK45CKSolver", I.RK45CKSolver), ("DOPRI45", I.DOPRI45), ("RK8713MSolver", I.RK8713MSolver)]:
+        for direction in (1, -1):
+            tcrit = rng.uniform(0.3, 0.8)
+            ncall = [0]
+
+            def f_nan(t, y, tcrit=tcrit, direction=direction, ncall=ncall):
+                ncall[0] += 1
+                if ncall[0] > 20000:
+                    raise loopsim.BudgetExceeded()
+                with np.errstate(invalid="ignore"):
+                    return np.array([y[1], -y[0] + np.sqrt((tcrit - t) * direction + 0.0)])
+            ode = build(method, direction, f_nan)
+            inp = dict(kind="nan-rhs", method=mname, direction=direction, tcrit=tcrit)
+            t_start = float(ode.t[0])
+            tc = tcrit if direction > 0 else tcrit
+            try:
+                if direction < 0:
+                    # run from 1 down to 0: the domain is left below tcrit
+                    pass
+                ode.integrate()
+                raised = False
+            except de.exception_types.FailedIntegration:
+                raised = True
+            except loopsim.BudgetExceeded:
+                ctx.count("nan-rhs:budget-exceeded")
+                continue
+            except Exception as e:
+                raised = "other:%r" % (e,)
+            finite = bool(np.all(np.isfinite(ode.y)) and np.all(np.isfinite(ode.t)))
+            ctx.oracle("unmeetable-tolerances-raise", raised is True and finite and not ode.success, dict(inp, raised=str(raised), finite=finite, samples=len(ode.t)),
+                       what="NaN right-hand side: raised=%s, stored values finite=%s, success=%s" % (raised, finite, ode.success))
+            ctx.count("nan-rhs:" + mname)
     # the loop model with faults: replay of scenarios with integrator-level and callback faults, one and two successive faults
     scs, lines = [], []
     for i in range(40 if ctx.quick() else 400):
